@@ -195,13 +195,34 @@ def check_aperture_grid(case, ctx):
 
 
 # ----------------------------------------------------------------------- claim 3: envelopes
-def _spread(draw, hi):
-    kind = draw(st.sampled_from(["any", "any", "any", "zero", "list"]))
+def _spread(draw, hi, weighted=False):
+    kinds = ["any", "any", "any", "zero", "list"] + (["weighted", "gaussian"] if weighted else [])
+    kind = draw(st.sampled_from(kinds))
     if kind == "any":
         return draw(gen.floats(0.0, hi))
     if kind == "zero":
         return 0.0
+    if kind == "weighted":
+        n = draw(st.integers(1, 3))
+        return {"values": [draw(gen.floats(0.0, hi)) for _ in range(n)], "weights": [draw(st.sampled_from([0.25, 0.5, 1.5, 2.0])) for _ in range(n)]}
+    if kind == "gaussian":
+        std = draw(gen.floats(0.01, hi / 8))
+        return {"gaussian": {"center": 2.0 * std + draw(gen.floats(0.0, hi / 2)), "std": std, "n": draw(st.integers(2, 4))}}
     return [draw(gen.floats(0.0, hi)) for _ in range(draw(st.integers(1, 3)))]
+
+
+def _mk_spread(spec):
+    """spread spec -> (value for abTEM, number of members or None for a scalar)"""
+    import abtem.distributions as dist
+
+    if isinstance(spec, dict) and "values" in spec:
+        return dist.from_values(np.array(spec["values"]), weights=np.array(spec["weights"])), len(spec["values"])
+    if isinstance(spec, dict):
+        g = spec["gaussian"]
+        return dist.gaussian(center=g["center"], standard_deviation=g["std"], num_samples=g["n"], sampling_limit=2.0), g["n"]
+    if isinstance(spec, list):
+        return spec, len(spec)
+    return spec, None
 
 
 @st.composite
@@ -210,9 +231,9 @@ def envelope_case(draw):
     kind = draw(st.sampled_from(["temporal", "spatial", "spatial"]))
     case = {**g, "kind": kind}
     if kind == "temporal":
-        case["focal_spread"] = _spread(draw, 200.0)
+        case["focal_spread"] = _spread(draw, 200.0, weighted=True)
     else:
-        case["angular_spread"] = _spread(draw, 5.0)
+        case["angular_spread"] = _spread(draw, 5.0, weighted=True)
         case["coeffs"] = draw(coeff_set(g["energy"], min_size=0))
     return case
 
@@ -234,16 +255,19 @@ def check_envelopes(case, ctx):
     ctx.label(kind)
     if kind == "temporal":
         spread = case["focal_spread"]
-        env = TemporalEnvelope(focal_spread=spread, **_grid_kwargs(case))
+        value, nmem = _mk_spread(spread)
+        env = TemporalEnvelope(focal_spread=value, **_grid_kwargs(case))
     else:
         spread = case["angular_spread"]
-        env = SpatialEnvelope(angular_spread=spread, aberration_coefficients=dict(case["coeffs"]), **_grid_kwargs(case))
-    many = isinstance(spread, list)
+        value, nmem = _mk_spread(spread)
+        env = SpatialEnvelope(angular_spread=value, aberration_coefficients=dict(case["coeffs"]), **_grid_kwargs(case))
+    many = nmem is not None
     ctx.label("spread_distribution" if many else "spread_scalar")
+    ctx.label("spread_weighted", isinstance(spread, dict))
     k = np.asarray(env._evaluate_kernel())
     gpts = tuple(case["gpts"])
     bucket = ("envelope", kind)
-    exp_shape = ((len(spread),) if many else ()) + gpts
+    exp_shape = ((nmem,) if many else ()) + gpts
     if k.shape != exp_shape:
         raise Violation(f"{kind} envelope kernel has shape {k.shape}, expected {exp_shape}", bucket + ("shape",))
     _in_unit_interval(k, f"{kind} envelope (spread {spread})", bucket)
